@@ -56,10 +56,15 @@ type Explorer struct {
 	Transitions int64
 	HorizonHits int64
 	States      map[Key]struct{}
-	Stopped     bool // deadline hit
-	MaxDepth    int
-	cache       map[Key][]costVec
-	TotalCap    int // if >0, total deviations over all classes is capped too
+	// MaxStates bounds the States set and the cache (entries each; default 3 million). Beyond it new
+	// states are neither recorded (the count becomes a lower bound, StatesCapped) nor cached (less
+	// pruning, same verdicts).
+	MaxStates    int
+	StatesCapped bool
+	Stopped      bool // deadline hit
+	MaxDepth     int
+	cache        map[Key][]costVec
+	TotalCap     int // if >0, total deviations over all classes is capped too
 }
 
 type oneRun struct {
@@ -105,14 +110,25 @@ func (r *oneRun) Pick(kind string, opts []Option) int {
 func (r *oneRun) Visit(k Key) bool {
 	x := r.x
 	x.Transitions++
+	max := x.MaxStates
+	if max == 0 {
+		max = 3000000
+	}
 	if x.States != nil {
-		x.States[k] = struct{}{}
+		if len(x.States) < max {
+			x.States[k] = struct{}{}
+		} else if _, ok := x.States[k]; !ok {
+			x.StatesCapped = true
+		}
 	}
 	if x.NoCache || len(r.choices) < len(r.prefix) {
 		return true
 	}
 	// beyond the replayed prefix: has this partial order been reached at no greater cost?
-	l := x.cache[k]
+	l, known := x.cache[k]
+	if !known && len(x.cache) >= max {
+		return true
+	}
 	for _, c := range l {
 		if c.leq(r.cost) {
 			return false
